@@ -31,6 +31,37 @@ EXTRA = [
 ]
 
 
+_IMMUTABLE = (str, int, float, bool, bytes, type(None), complex, frozenset)
+
+
+def mutable_ids(root):
+    """id -> type name of every mutable object reachable from `root` through slots, attributes,
+    list / tuple / dict / set elements"""
+    seen = {}
+    stack = [root]
+    while stack:
+        o = stack.pop()
+        if isinstance(o, _IMMUTABLE) or isinstance(o, type) or id(o) in seen:
+            continue
+        if isinstance(o, tuple):
+            stack.extend(o)
+            continue
+        seen[id(o)] = type(o).__name__
+        if isinstance(o, (list, set)):
+            stack.extend(o)
+        elif isinstance(o, dict):
+            stack.extend(o.keys())
+            stack.extend(o.values())
+        else:
+            for klass in type(o).__mro__:
+                for s in getattr(klass, "__slots__", ()):
+                    if s != "__weakref__" and hasattr(o, s):
+                        stack.append(getattr(o, s))
+            if hasattr(o, "__dict__"):
+                stack.extend(vars(o).values())
+    return seen
+
+
 def same(a, b, coords):
     return dump(a, coords) == dump(b, coords)
 
@@ -55,6 +86,7 @@ def check(text):
     g0 = py_gen_text(ast, False)
     if py_gen_text(back, False) != g0:
         return (rp, "tree rebuilt by eval(repr()) generates different C")
+    p = None
     for proto in range(2, pickle.HIGHEST_PROTOCOL + 1):
         try:
             p = pickle.loads(pickle.dumps(ast, protocol=proto))
@@ -74,26 +106,15 @@ def check(text):
         return (rp, "deepcopy differs")
     if py_gen_text(d, False) != g0:
         return (rp, "deep copy generates different C")
-    # independence: no node object is shared, and mutating the copy leaves the original alone
-    ids = set()
-
-    def walk(n):
-        ids.add(id(n))
-        for _, c in n.children():
-            walk(c)
-
-    walk(ast)
-    shared = []
-
-    def walk2(n):
-        if id(n) in ids:
-            shared.append(type(n).__name__)
-        for _, c in n.children():
-            walk2(c)
-
-    walk2(d)
-    if shared:
-        return (rp, "deep copy shares node objects with the original: %s" % shared[:3])
+    # independence: no mutable object (node, list, Coord, ...) reachable from the copy is reachable from
+    # the original, and mutating the copy leaves the original alone
+    ids = mutable_ids(ast)
+    for what, tree in (("deep copy", d), ("tree rebuilt by pickle", p), ("tree rebuilt by eval(repr())", back)):
+        if tree is None:
+            continue
+        sh = [k for i, k in mutable_ids(tree).items() if i in ids]
+        if sh:
+            return (rp, "%s shares mutable objects with the original: %s" % (what, sorted(set(sh))[:3]))
     before = dump(ast, True)
     if d.ext:
         d.ext.pop()
@@ -116,7 +137,7 @@ def _dump_of(t):
 
 def run(ctx):
     texts = [t for t in progs.pool(ctx, scale=0.3) if len(t) < 5000] + EXTRA
-    ctx.rule(progs.RULE + "; plus programs with quotes, backslashes and non-ASCII characters in literals, empty blocks and absent children, and coordinates beyond 16 / 32 bits (a 70 000-character line, line numbers up to 2^40, a 600-character file name): eval(repr(ast)) in the namespace of c_ast (structural equality, generated text), pickle protocols 2..HIGHEST and copy.deepcopy (equality incl. coordinates, generated text, no shared node objects, mutation independence); repr text compared with the Lean model of __repr__ for ASCII programs")
+    ctx.rule(progs.RULE + "; plus programs with quotes, backslashes and non-ASCII characters in literals, empty blocks and absent children, and coordinates beyond 16 / 32 bits (a 70 000-character line, line numbers up to 2^40, a 600-character file name): eval(repr(ast)) in the namespace of c_ast (structural equality, generated text), pickle protocols 2..HIGHEST and copy.deepcopy (equality incl. coordinates, generated text, no mutable object - node, list or coordinate - shared with the original, mutation independence); repr text compared with the Lean model of __repr__ for ASCII programs")
     res = pmap(check, texts)
     ascii_idx = [i for i, t in enumerate(texts) if res[i] is not None and t.isascii()]
     dumps = pmap(_dump_of, [texts[i] for i in ascii_idx])
